@@ -264,8 +264,24 @@ def shard(desc):
             marks = []
             y = rng.choice(vals) if typ == 'Covariance' else None
             total = 0
+            use_extend = typ not in ('Max', 'Quantile') and rng.random() < 0.5
             for L in lens:
                 step = L - total
+                if use_extend and total > 0:
+                    # the same constant stream continued with extend (by value / by reference), which C20 shows to be
+                    # the add loop: the contract for identical observations must hold however they were ingested
+                    if arity == 2:
+                        flat = []
+                        for _ in range(step):
+                            flat += [x, y] if typ == 'Covariance' else [x, 10.0 ** rng.uniform(-6, 6)]
+                    else:
+                        flat = [x] * step
+                    c.op(rng.choice(['E', 'ER']), 0, flat)
+                    total = L
+                    st = 'const'
+                    marks.append((c.op('O', 0), st, table(typ, st, x=x, y=y, n=L), 'x=%r n=%d' % (x, L)))
+                    res.count('const_states_via_extend')
+                    continue
                 if arity == 2:
                     if typ == 'Covariance':
                         pair = [x, y]
@@ -394,7 +410,7 @@ def run(tier, seed):
             total.merge(common.run_shards(shard, descs))
     except common.Inconclusive as e:
         total.inconclusive.append(str(e))
-    need = {'states_empty': 30, 'states_one': 500, 'states_const': 5000, 'states_distinct': 300, 'states_zero_weight': 6,
+    need = {'const_states_via_extend': 500, 'states_empty': 30, 'states_one': 500, 'states_const': 5000, 'states_distinct': 300, 'states_zero_weight': 6,
             'expected_panics_seen': 1000, 'const_states_len_10000': 10}
     for t in SINGLE + PAIR:
         need['cases_%s' % t] = 20
